@@ -234,6 +234,15 @@ def data_framing(ctx):
                 want = b''.join((l[1:] if l.startswith(b'.') else l) + b'\n' for l in fmsg)
                 if not queued[0].endswith(want):
                     fails.append((case, 'queued text %r' % queued[0][-60:], 'fails data-frame-spec: message lines differ from the specification %r' % want[-60:]))
+        # every line the specification hands out behind the DATA phase is answered (the replies may be refusals, and a
+        # malformed stretch adds 500s of its own): input is never dropped silently, whether or not it was already
+        # there when the line in front of it was handled (seeded change c05-m10)
+        if fo and fo[0] in ('queued', 'refused') and len(fo) >= 4 and got[:1] == ['354'] and not r.fault:
+            cm = fo[3][5:]
+            nlines = len([x for x in cm.split(',') if x]) if cm else 0
+            after = got[2:]
+            if len(after) < nlines + 1 and not any(c in ('421', '550') for c in after):
+                fails.append((case, obs, 'fails line-without-reply: %d lines and QUIT follow the DATA phase, %d replies' % (nlines, len(after))))
         malformed = m['errs'] > 0
         if malformed and queued:
             fails.append((case, obs, 'fails malformed-payload-queued'))
